@@ -169,23 +169,23 @@ NOT_YET = {}
 
 # what was added to each check while building (DESIGN.md 8.2 / 8.5); appended to the level note
 ADDED = {
- "C01": "Added since: extreme geometries, thin / single-cell boxes, six-digit indices in two directions, a 7-level 12-field plotfile (FAB header lines > 100 bytes), every permutation of <= 4 boxes as a selector, histories on one stream / selector object, schedules of multi-box selections. Later: case-variant / UTF-8 field names, a repeated name beside its generated key, 120 fields, 27 + 20 boxes over 3..5 files, level keys below -n, level directory prefix, binary file names of different lengths. Session 3: a level of 131 single-box files, caller-edits history (edit in place, re-read at once, through a list, through a second reader). Session 3 (every check): the working directory of every case holds decoy plotfile components, the directory holding the inputs has a blank and glob / regex metacharacters in its name, and for half of the generated plotfiles the process has read boxes (and edited the arrays it was given) before the operation under check. Kept level streams while every binary file is replaced by rename; mixed-width file numbers; twelve levels. Wave 11 (every check): every fourth case is preceded in the same process by its twin at the same paths (another time step, every value negated); a quarter of the generated plotfiles are named through link/../name with a look-alike at the lexical location (not in C02 C10 C12 C13 C17 C18, which spell their own paths); mixed-width file numbers and twelve-level plotfiles where the check takes the C01 universe.",
+ "C01": "Added since: extreme geometries, thin / single-cell boxes, six-digit indices in two directions, a 7-level 12-field plotfile (FAB header lines > 100 bytes), every permutation of <= 4 boxes as a selector, histories on one stream / selector object, schedules of multi-box selections. Later: case-variant / UTF-8 field names, a repeated name beside its generated key, 120 fields, 27 + 20 boxes over 3..5 files, level keys below -n, level directory prefix, binary file names of different lengths. Session 3: a level of 131 single-box files, caller-edits history (edit in place, re-read at once, through a list, through a second reader). Session 3 (every check): the working directory of every case holds decoy plotfile components, the directory holding the inputs has a blank and glob / regex metacharacters in its name, and for half of the generated plotfiles the process has read boxes (and edited the arrays it was given) before the operation under check. Kept level streams while every binary file is replaced by rename; mixed-width file numbers; twelve levels. Wave 11 (every check): every fourth case is preceded in the same process by its twin at the same paths (another time step, every value negated); a quarter of the generated plotfiles are named through link/../name with a look-alike at the lexical location (not in C02 C10 C12 C13 C17 C18, which spell their own paths); mixed-width file numbers and twelve-level plotfiles where the check takes the C01 universe. Mini wave 12: an 1100-field plotfile read through long index arrays / lists that differ in the middle.",
  "C02": "Added since: extreme geometries ARE in the alphabet now, thin meshes, six-digit indices, every opening of one plotfile must expose the same keys. Later: path forms (trailing slash, ./x, relative, symbolic link, link/../name with a decoy), NumPy level limits, UTF-8 / blank / case-variant names, 120 fields. Session 3: plotfiles opened by interpreters started with -O and -OO (finding fixed in the repository). Session 3 (every check): the working directory of every case holds decoy plotfile components, the directory holding the inputs has a blank and glob / regex metacharacters in its name, and for half of the generated plotfiles the process has read boxes (and edited the arrays it was given) before the operation under check. Public helpers of the reader used before a second comparison; twelve levels; index spaces starting at (8,16,0) / (-2,-2,-2) (known finding: grid sizes from the upper domain index alone). Wave 11 (every check): every fourth case is preceded in the same process by its twin at the same paths (another time step, every value negated); a quarter of the generated plotfiles are named through link/../name with a look-alike at the lexical location (not in C02 C10 C12 C13 C17 C18, which spell their own paths); mixed-width file numbers and twelve-level plotfiles where the check takes the C01 universe.",
  "C03": "Added since: fresh process per chunk with alternating limit order (process-lifetime state), huge payload, schedules of the full validation, default and chatty verbosity, the command line with every flag combination, the 7-level 12-field plotfile. Later: inherits the additions of the C01 universe (level prefix, many boxes, name variants, 120 fields). Session 3: inherits the 131-file level. Session 3 (every check): the working directory of every case holds decoy plotfile components, the directory holding the inputs has a blank and glob / regex metacharacters in its name, and for half of the generated plotfiles the process has read boxes (and edited the arrays it was given) before the operation under check. A level of 65 600 boxes. Wave 11 (every check): every fourth case is preceded in the same process by its twin at the same paths (another time step, every value negated); a quarter of the generated plotfiles are named through link/../name with a look-alike at the lexical location (not in C02 C10 C12 C13 C17 C18, which spell their own paths); mixed-width file numbers and twelve-level plotfiles where the check takes the C01 universe.",
  "C04": "Added since: in-place histories at one path, extreme geometries for the coordinate validation, offset-of-another-FAB operator, the taste command line, a 7-level 12-field base (single corruptions). Later: bounds off by 0.4 cell, NaN / -inf bounds, 'the name is there but it is a dangling link / a directory'. Session 3: every third non-failing validation with an ASCII-only standard output. Session 3 (every check): the working directory of every case holds decoy plotfile components, the directory holding the inputs has a blank and glob / regex metacharacters in its name, and for half of the generated plotfiles the process has read boxes (and edited the arrays it was given) before the operation under check. Stage-off validations of the intact base first; offsets +2^31 / +2^32 / +3*2^32; twelve-level base. Wave 11 (every check): every fourth case is preceded in the same process by its twin at the same paths (another time step, every value negated); a quarter of the generated plotfiles are named through link/../name with a look-alike at the lexical location (not in C02 C10 C12 C13 C17 C18, which spell their own paths); mixed-width file numbers and twelve-level plotfiles where the check takes the C01 universe.",
- "C05": "Added since: command line vs API for an option table, histories on one Colander object, 12-field plotfiles with huge values (24-character min/max tokens), sibling names, six-digit indices, the 7-level plotfile. Later: level prefix, names with blank / comma, run-end selections, another request into an existing output, one request list used for two plotfiles. Session 3: successive requests overwrite one output path per level limit; 131-file level. Session 3 (every check): the working directory of every case holds decoy plotfile components, the directory holding the inputs has a blank and glob / regex metacharacters in its name, and for half of the generated plotfiles the process has read boxes (and edited the arrays it was given) before the operation under check. Wave 11 (every check): every fourth case is preceded in the same process by its twin at the same paths (another time step, every value negated); a quarter of the generated plotfiles are named through link/../name with a look-alike at the lexical location (not in C02 C10 C12 C13 C17 C18, which spell their own paths); mixed-width file numbers and twelve-level plotfiles where the check takes the C01 universe.",
- "C06": "Added since: str / list selection forms, one reader object used by three combines, the command line, extreme geometries (mesh comparison), far-index mismatch, a 7-level 12+12-field pair. Later: gapped numbers in by-file mode, first input opened with a level limit, level prefix, names with blank / comma in list selections. Session 3 (every check): the working directory of every case holds decoy plotfile components, the directory holding the inputs has a blank and glob / regex metacharacters in its name, and for half of the generated plotfiles the process has read boxes (and edited the arrays it was given) before the operation under check. Readers change roles after three combines; mixed-width file numbers in both modes. Wave 11 (every check): every fourth case is preceded in the same process by its twin at the same paths (another time step, every value negated); a quarter of the generated plotfiles are named through link/../name with a look-alike at the lexical location (not in C02 C10 C12 C13 C17 C18, which spell their own paths); mixed-width file numbers and twelve-level plotfiles where the check takes the C01 universe.",
- "C07": "Added since: extreme geometries, hostile constant field, histories on one Mandoline object over all normals, schedules at neighbour-box positions, command line (default verbosity), +-1 ulp / +-1e-9 cell beside every lattice position, a 7-level 12-field plotfile (closed-form oracle), Pool(0) refused by the pool model. Later: every lattice point also for the non-dyadic geometry, level prefix, command line position 0.0, caller changes returned arrays in place between requests. Session 3: rotated field requests. Session 3 (every check): the working directory of every case holds decoy plotfile components, the directory holding the inputs has a blank and glob / regex metacharacters in its name, and for half of the generated plotfiles the process has read boxes (and edited the arrays it was given) before the operation under check. Position spellings (int, NumPy scalars). Wave 11 (every check): every fourth case is preceded in the same process by its twin at the same paths (another time step, every value negated); a quarter of the generated plotfiles are named through link/../name with a look-alike at the lexical location (not in C02 C10 C12 C13 C17 C18, which spell their own paths); mixed-width file numbers and twelve-level plotfiles where the check takes the C01 universe.",
+ "C05": "Added since: command line vs API for an option table, histories on one Colander object, 12-field plotfiles with huge values (24-character min/max tokens), sibling names, six-digit indices, the 7-level plotfile. Later: level prefix, names with blank / comma, run-end selections, another request into an existing output, one request list used for two plotfiles. Session 3: successive requests overwrite one output path per level limit; 131-file level. Session 3 (every check): the working directory of every case holds decoy plotfile components, the directory holding the inputs has a blank and glob / regex metacharacters in its name, and for half of the generated plotfiles the process has read boxes (and edited the arrays it was given) before the operation under check. Wave 11 (every check): every fourth case is preceded in the same process by its twin at the same paths (another time step, every value negated); a quarter of the generated plotfiles are named through link/../name with a look-alike at the lexical location (not in C02 C10 C12 C13 C17 C18, which spell their own paths); mixed-width file numbers and twelve-level plotfiles where the check takes the C01 universe. Mini wave 12: plotfile / output as pathlib.Path and the limit as np.int64 for every third request.",
+ "C06": "Added since: str / list selection forms, one reader object used by three combines, the command line, extreme geometries (mesh comparison), far-index mismatch, a 7-level 12+12-field pair. Later: gapped numbers in by-file mode, first input opened with a level limit, level prefix, names with blank / comma in list selections. Session 3 (every check): the working directory of every case holds decoy plotfile components, the directory holding the inputs has a blank and glob / regex metacharacters in its name, and for half of the generated plotfiles the process has read boxes (and edited the arrays it was given) before the operation under check. Readers change roles after three combines; mixed-width file numbers in both modes. Wave 11 (every check): every fourth case is preceded in the same process by its twin at the same paths (another time step, every value negated); a quarter of the generated plotfiles are named through link/../name with a look-alike at the lexical location (not in C02 C10 C12 C13 C17 C18, which spell their own paths); mixed-width file numbers and twelve-level plotfiles where the check takes the C01 universe. Mini wave 12: pathlib.Path arguments; successive requests on the same readers to one output name.",
+ "C07": "Added since: extreme geometries, hostile constant field, histories on one Mandoline object over all normals, schedules at neighbour-box positions, command line (default verbosity), +-1 ulp / +-1e-9 cell beside every lattice position, a 7-level 12-field plotfile (closed-form oracle), Pool(0) refused by the pool model. Later: every lattice point also for the non-dyadic geometry, level prefix, command line position 0.0, caller changes returned arrays in place between requests. Session 3: rotated field requests. Session 3 (every check): the working directory of every case holds decoy plotfile components, the directory holding the inputs has a blank and glob / regex metacharacters in its name, and for half of the generated plotfiles the process has read boxes (and edited the arrays it was given) before the operation under check. Position spellings (int, NumPy scalars). Wave 11 (every check): every fourth case is preceded in the same process by its twin at the same paths (another time step, every value negated); a quarter of the generated plotfiles are named through link/../name with a look-alike at the lexical location (not in C02 C10 C12 C13 C17 C18, which spell their own paths); mixed-width file numbers and twelve-level plotfiles where the check takes the C01 universe. Mini wave 12: positions as 0-d arrays; exact scaling differential (every field x 2^-70).",
  "C08": "Added since: extreme geometries, fine boxes aligned to one coarse cell, thin meshes, command line vs API. Later: case-variant names, level prefix, caller changes returned arrays (and coordinates) in place between requests. Session 3: both rotations of three names, rotation through grid_level. Session 3 (every check): the working directory of every case holds decoy plotfile components, the directory holding the inputs has a blank and glob / regex metacharacters in its name, and for half of the generated plotfiles the process has read boxes (and edited the arrays it was given) before the operation under check. Retry after a failed call on one object; cell sizes printed with 12 digits. Wave 11 (every check): every fourth case is preceded in the same process by its twin at the same paths (another time step, every value negated); a quarter of the generated plotfiles are named through link/../name with a look-alike at the lexical location (not in C02 C10 C12 C13 C17 C18, which spell their own paths); mixed-width file numbers and twelve-level plotfiles where the check takes the C01 universe.",
  "C09": "Added since: sibling volFrac names, non-finite values in covered cells, histories on one reader, command line vs API, the 7-level 12-field plotfile. Later: 27 + 20 boxes over five / three files, level prefix. Session 3 (every check): the working directory of every case holds decoy plotfile components, the directory holding the inputs has a blank and glob / regex metacharacters in its name, and for half of the generated plotfiles the process has read boxes (and edited the arrays it was given) before the operation under check. A reader opened before another time step is written over the plotfile. Wave 11 (every check): every fourth case is preceded in the same process by its twin at the same paths (another time step, every value negated); a quarter of the generated plotfiles are named through link/../name with a look-alike at the lexical location (not in C02 C10 C12 C13 C17 C18, which spell their own paths); mixed-width file numbers and twelve-level plotfiles where the check takes the C01 universe.",
- "C10": "Added since: all-zero fine boxes, two boxes of one file out of header order, field names differing by case, the 7-level 12-field plotfile gridded at 1024 x 128 x 128. Later: nine / eight files read with 1, 3, 16 CPUs, level prefix, a plotfile marinated before. Session 3 (every check): the working directory of every case holds decoy plotfile components, the directory holding the inputs has a blank and glob / regex metacharacters in its name, and for half of the generated plotfiles the process has read boxes (and edited the arrays it was given) before the operation under check. 73 728-cell channel; retry after a failed run to the same output. Wave 11 (every check): every fourth case is preceded in the same process by its twin at the same paths (another time step, every value negated); a quarter of the generated plotfiles are named through link/../name with a look-alike at the lexical location (not in C02 C10 C12 C13 C17 C18, which spell their own paths); mixed-width file numbers and twelve-level plotfiles where the check takes the C01 universe.",
- "C11": "Added since: recipes without docstring and passed as a callable, two recipe files with one base name, two cooks on one Chef object, command line vs API, file numbers with gaps, the 7-level 12-field plotfile. Later: two recipe files with one base name, level prefix, a planar flame, 1500 atm. Session 3: thorough tier runs every recipe x kept string on eight more meshes x eight geometries. Session 3 (every check): the working directory of every case holds decoy plotfile components, the directory holding the inputs has a blank and glob / regex metacharacters in its name, and for half of the generated plotfiles the process has read boxes (and edited the arrays it was given) before the operation under check. -0.0 cells in kept fields; mixed-width file numbers; Chef constructed before the time step is replaced. Wave 11 (every check): every fourth case is preceded in the same process by its twin at the same paths (another time step, every value negated); a quarter of the generated plotfiles are named through link/../name with a look-alike at the lexical location (not in C02 C10 C12 C13 C17 C18, which spell their own paths); mixed-width file numbers and twelve-level plotfiles where the check takes the C01 universe.",
- "C12": "Added since: pool size explored over 1 / 2 / 3 / 5 / 16, asynchronous pool calls, chdir histories and the two-cook Cantera history under the real pools, a plane that the finest level does not meet. Later: serial counterpart of reader selections, level iteration observed as a sequence, NaN / negative temperature cook, a differing replay of one schedule is a violation; two Chefs alive at once (A constructed, X constructed, A cooked: serial, controlled pool, real pool); lists of consecutive fields read box by box with all results held. Session 3: three box -> file layouts of the 3D input for every pooled tool (four per-file tasks, gapped numbering), reader_reread tool, chdir history over every pooled tool and a sibling directory with the same relative names (in-process and real pools). Session 3 (every check): the working directory of every case holds decoy plotfile components, the directory holding the inputs has a blank and glob / regex metacharacters in its name, and for half of the generated plotfiles the process has read boxes (and edited the arrays it was given) before the operation under check. Wave 11 (every check): every fourth case is preceded in the same process by its twin at the same paths (another time step, every value negated); a quarter of the generated plotfiles are named through link/../name with a look-alike at the lexical location (not in C02 C10 C12 C13 C17 C18, which spell their own paths); mixed-width file numbers and twelve-level plotfiles where the check takes the C01 universe.",
- "C13": "Added since: path shapes ./x, trailing slash, absolute; output = the existing directory holding the inputs; the same output written twice with other options; directory names with dots; audit resolves dir_fd-relative paths. Later: truncated input binary, inputs named through symbolic links, names without the chk / plt prefix. Session 3: unreadable input as a fault dimension - EACCES at every individual open-for-reading inside an input tree; tools without an output path judged by what they print. Session 3 (every check): the working directory of every case holds decoy plotfile components, the directory holding the inputs has a blank and glob / regex metacharacters in its name, and for half of the generated plotfiles the process has read boxes (and edited the arrays it was given) before the operation under check. Tools mandoline_object (explicit output first, then the call under check) and chk2plt_ref (reference plotfile beside a seven-digit checkpoint). Wave 11 (every check): every fourth case is preceded in the same process by its twin at the same paths (another time step, every value negated); a quarter of the generated plotfiles are named through link/../name with a look-alike at the lexical location (not in C02 C10 C12 C13 C17 C18, which spell their own paths); mixed-width file numbers and twelve-level plotfiles where the check takes the C01 universe.",
+ "C10": "Added since: all-zero fine boxes, two boxes of one file out of header order, field names differing by case, the 7-level 12-field plotfile gridded at 1024 x 128 x 128. Later: nine / eight files read with 1, 3, 16 CPUs, level prefix, a plotfile marinated before. Session 3 (every check): the working directory of every case holds decoy plotfile components, the directory holding the inputs has a blank and glob / regex metacharacters in its name, and for half of the generated plotfiles the process has read boxes (and edited the arrays it was given) before the operation under check. 73 728-cell channel; retry after a failed run to the same output. Wave 11 (every check): every fourth case is preceded in the same process by its twin at the same paths (another time step, every value negated); a quarter of the generated plotfiles are named through link/../name with a look-alike at the lexical location (not in C02 C10 C12 C13 C17 C18, which spell their own paths); mixed-width file numbers and twelve-level plotfiles where the check takes the C01 universe. Mini wave 12: dtype spellings float / double / single / f4 / <f8; a box replicated to more than 2^23 cells.",
+ "C11": "Added since: recipes without docstring and passed as a callable, two recipe files with one base name, two cooks on one Chef object, command line vs API, file numbers with gaps, the 7-level 12-field plotfile. Later: two recipe files with one base name, level prefix, a planar flame, 1500 atm. Session 3: thorough tier runs every recipe x kept string on eight more meshes x eight geometries. Session 3 (every check): the working directory of every case holds decoy plotfile components, the directory holding the inputs has a blank and glob / regex metacharacters in its name, and for half of the generated plotfiles the process has read boxes (and edited the arrays it was given) before the operation under check. -0.0 cells in kept fields; mixed-width file numbers; Chef constructed before the time step is replaced. Wave 11 (every check): every fourth case is preceded in the same process by its twin at the same paths (another time step, every value negated); a quarter of the generated plotfiles are named through link/../name with a look-alike at the lexical location (not in C02 C10 C12 C13 C17 C18, which spell their own paths); mixed-width file numbers and twelve-level plotfiles where the check takes the C01 universe. Mini wave 12: pathlib.Path arguments; RRi with all 84 reactions, last first.",
+ "C12": "Added since: pool size explored over 1 / 2 / 3 / 5 / 16, asynchronous pool calls, chdir histories and the two-cook Cantera history under the real pools, a plane that the finest level does not meet. Later: serial counterpart of reader selections, level iteration observed as a sequence, NaN / negative temperature cook, a differing replay of one schedule is a violation; two Chefs alive at once (A constructed, X constructed, A cooked: serial, controlled pool, real pool); lists of consecutive fields read box by box with all results held. Session 3: three box -> file layouts of the 3D input for every pooled tool (four per-file tasks, gapped numbering), reader_reread tool, chdir history over every pooled tool and a sibling directory with the same relative names (in-process and real pools). Session 3 (every check): the working directory of every case holds decoy plotfile components, the directory holding the inputs has a blank and glob / regex metacharacters in its name, and for half of the generated plotfiles the process has read boxes (and edited the arrays it was given) before the operation under check. Wave 11 (every check): every fourth case is preceded in the same process by its twin at the same paths (another time step, every value negated); a quarter of the generated plotfiles are named through link/../name with a look-alike at the lexical location (not in C02 C10 C12 C13 C17 C18, which spell their own paths); mixed-width file numbers and twelve-level plotfiles where the check takes the C01 universe. Mini wave 12: eleven tools once under the spawn start method (real pools, two workers).",
+ "C13": "Added since: path shapes ./x, trailing slash, absolute; output = the existing directory holding the inputs; the same output written twice with other options; directory names with dots; audit resolves dir_fd-relative paths. Later: truncated input binary, inputs named through symbolic links, names without the chk / plt prefix. Session 3: unreadable input as a fault dimension - EACCES at every individual open-for-reading inside an input tree; tools without an output path judged by what they print. Session 3 (every check): the working directory of every case holds decoy plotfile components, the directory holding the inputs has a blank and glob / regex metacharacters in its name, and for half of the generated plotfiles the process has read boxes (and edited the arrays it was given) before the operation under check. Tools mandoline_object (explicit output first, then the call under check) and chk2plt_ref (reference plotfile beside a seven-digit checkpoint). Wave 11 (every check): every fourth case is preceded in the same process by its twin at the same paths (another time step, every value negated); a quarter of the generated plotfiles are named through link/../name with a look-alike at the lexical location (not in C02 C10 C12 C13 C17 C18, which spell their own paths); mixed-width file numbers and twelve-level plotfiles where the check takes the C01 universe. Mini wave 12: inputs whose name already ends in _ck; two inputs of one name in sibling directories.",
  "C14": "Added since: one reader object per state shared by all its combines, a chef event keeping two fields out of header order, a field with huge values. Later: thermochemical round trip (cook with kept fields by user solution-array recipe / ENT / SDi / HRR, combine back in both orders, strain all; kept and original components bit-equal). Session 3 (every check): the working directory of every case holds decoy plotfile components, the directory holding the inputs has a blank and glob / regex metacharacters in its name, and for half of the generated plotfiles the process has read boxes (and edited the arrays it was given) before the operation under check. One root with mixed-width file numbers, one always named through link/../root. Wave 11 (every check): every fourth case is preceded in the same process by its twin at the same paths (another time step, every value negated); a quarter of the generated plotfiles are named through link/../name with a look-alike at the lexical location (not in C02 C10 C12 C13 C17 C18, which spell their own paths); mixed-width file numbers and twelve-level plotfiles where the check takes the C01 universe.",
  "C15": "Added since: histories on one stream object, class-B field lists (run ends around a permuted / repeated interior), the 7-level 12-field plotfile. Later: case-variant names, 27 + 20 boxes (schedule window bounded), level prefix. Session 3: every class-A iteration also under warnings-as-errors (complete or loud), 131 / 65 files per level. Session 3 (every check): the working directory of every case holds decoy plotfile components, the directory holding the inputs has a blank and glob / regex metacharacters in its name, and for half of the generated plotfiles the process has read boxes (and edited the arrays it was given) before the operation under check. Wave 11 (every check): every fourth case is preceded in the same process by its twin at the same paths (another time step, every value negated); a quarter of the generated plotfiles are named through link/../name with a look-alike at the lexical location (not in C02 C10 C12 C13 C17 C18, which spell their own paths); mixed-width file numbers and twelve-level plotfiles where the check takes the C01 universe.",
  "C16": "Added since: extreme geometries, schedules of the per-level pool call, histories on one Mandoline object, command line vs API (default verbosity), the 7-level 12-field plotfile (closed-form oracle). Later: every lattice point also for the non-dyadic geometry, level prefix, command line position 0.0. Session 3: outputs re-used across requests (explicit path and default name), rotated field request. Session 3 (every check): the working directory of every case holds decoy plotfile components, the directory holding the inputs has a blank and glob / regex metacharacters in its name, and for half of the generated plotfiles the process has read boxes (and edited the arrays it was given) before the operation under check. Wave 11 (every check): every fourth case is preceded in the same process by its twin at the same paths (another time step, every value negated); a quarter of the generated plotfiles are named through link/../name with a look-alike at the lexical location (not in C02 C10 C12 C13 C17 C18, which spell their own paths); mixed-width file numbers and twelve-level plotfiles where the check takes the C01 universe.",
- "C17": "Added since: extreme geometries, species names with nested parentheses, the command line over all option combinations, a 7-level checkpoint with ten state components. Later: 27 + 20 boxes, gapped file numbers, species sums drifted by 1e-6, default output directory for eight ways of naming the checkpoint (trailing / and /., ./x, a 'latest' symlink, names without 'chk', '.' from inside it). Session 3: quick tier = ghost width x species count x species source product; thorough = full product incl. geometry, time and all option triples. Session 3 (every check): the working directory of every case holds decoy plotfile components, the directory holding the inputs has a blank and glob / regex metacharacters in its name, and for half of the generated plotfiles the process has read boxes (and edited the arrays it was given) before the operation under check. Wave 11 (every check): every fourth case is preceded in the same process by its twin at the same paths (another time step, every value negated); a quarter of the generated plotfiles are named through link/../name with a look-alike at the lexical location (not in C02 C10 C12 C13 C17 C18, which spell their own paths); mixed-width file numbers and twelve-level plotfiles where the check takes the C01 universe.",
+ "C17": "Added since: extreme geometries, species names with nested parentheses, the command line over all option combinations, a 7-level checkpoint with ten state components. Later: 27 + 20 boxes, gapped file numbers, species sums drifted by 1e-6, default output directory for eight ways of naming the checkpoint (trailing / and /., ./x, a 'latest' symlink, names without 'chk', '.' from inside it). Session 3: quick tier = ghost width x species count x species source product; thorough = full product incl. geometry, time and all option triples. Session 3 (every check): the working directory of every case holds decoy plotfile components, the directory holding the inputs has a blank and glob / regex metacharacters in its name, and for half of the generated plotfiles the process has read boxes (and edited the arrays it was given) before the operation under check. Wave 11 (every check): every fourth case is preceded in the same process by its twin at the same paths (another time step, every value negated); a quarter of the generated plotfiles are named through link/../name with a look-alike at the lexical location (not in C02 C10 C12 C13 C17 C18, which spell their own paths); mixed-width file numbers and twelve-level plotfiles where the check takes the C01 universe. Mini wave 12: switches as np.bool_ / 0 1; three 64 x 64 x 60 boxes in one state file (offsets beyond 2^25).",
  "C18": "Added since: huge values, nested parentheses, marinate after an in-place rewrite, directory names with dots and a marinated sibling, NaN in the tables of level 0 only vs of finer levels only. Later: all 32 option combinations of menu, one field on many-box levels, square tables, names with blanks, minuterie / menu after an in-place rewrite, marinate through link/../name. Session 3: 21-species and 1304-field plotfiles, COLUMNS 200 / 48 / 20; thorough = time x payload product. Session 3 (every check): the working directory of every case holds decoy plotfile components, the directory holding the inputs has a blank and glob / regex metacharacters in its name, and for half of the generated plotfiles the process has read boxes (and edited the arrays it was given) before the operation under check. menu / minuterie between marinate and re-marinate; twelve levels. Wave 11 (every check): every fourth case is preceded in the same process by its twin at the same paths (another time step, every value negated); a quarter of the generated plotfiles are named through link/../name with a look-alike at the lexical location (not in C02 C10 C12 C13 C17 C18, which spell their own paths); mixed-width file numbers and twelve-level plotfiles where the check takes the C01 universe.",
  "C19": "Added since: extreme geometries, selectors re-used across queries, adjacent fields in descending order, the 7-level 12-field plotfile. Later: magnitudes 1e12 / 1e-15 and non-finite values elsewhere in the box, selection lists re-used on a second plotfile, run-then-far lists on twelve fields, origin-straddling geometry, other spellings of a centre, descending box order, level prefix. Session 3: slices of four widths / offsets in sequence. Session 3 (every check): the working directory of every case holds decoy plotfile components, the directory holding the inputs has a blank and glob / regex metacharacters in its name, and for half of the generated plotfiles the process has read boxes (and edited the arrays it was given) before the operation under check. Face and corner queries before interior ones; mixed-width file numbers; twelve levels. Wave 11 (every check): every fourth case is preceded in the same process by its twin at the same paths (another time step, every value negated); a quarter of the generated plotfiles are named through link/../name with a look-alike at the lexical location (not in C02 C10 C12 C13 C17 C18, which spell their own paths); mixed-width file numbers and twelve-level plotfiles where the check takes the C01 universe.",
  "C20": "Added since: three field-selector forms, multi-box selectors (rotation, reversed slice, mask), one stream object re-used, the 7-level 12-field base. Later: run-like field lists, 'name present but no file' corruptions. Session 3: every numeric token of the FAB precision descriptor edited. Session 3 (every check): the working directory of every case holds decoy plotfile components, the directory holding the inputs has a blank and glob / regex metacharacters in its name, and for half of the generated plotfiles the process has read boxes (and edited the arrays it was given) before the operation under check. Index ranges of level k compared with level k's own header; twelve-level base. Wave 11 (every check): every fourth case is preceded in the same process by its twin at the same paths (another time step, every value negated); a quarter of the generated plotfiles are named through link/../name with a look-alike at the lexical location (not in C02 C10 C12 C13 C17 C18, which spell their own paths); mixed-width file numbers and twelve-level plotfiles where the check takes the C01 universe.",
